@@ -2567,6 +2567,9 @@ static iwrc _jbl_target_apply_patch(struct jbl_node *target, const struct jbl_pa
     if (op == JBP_REMOVE) {
       return 0;
     } else if ((op == JBP_MOVE) || (op == JBP_COPY) || (op == JBP_SWAP)) {
+      if (!ex->from) { // "from" is mandatory for these operations
+        return JBL_ERROR_PATCH_INVALID;
+      }
       if (op == JBP_MOVE) {
         value = _jbl_node_detach(target, ex->from);
       } else {
